@@ -770,7 +770,8 @@ def main(tier):
         chk.function(dotted, q)
     chk.function(PCM, 'SearchSpaceSelector.parse_multi_dimensional_parameter_name', role='bounded stand-in only (regular expression)')
     natives = {'findings': c16.start_native(['findings'], 'f17', REPLAY), 'regex': c16.start_native(['standin_regex', '6' if tier == 'quick' else '7'], 'rx', REPLAY),
-               'end_to_end': c16.start_native(['end_to_end'], 'e2e', REPLAY)}
+               'end_to_end': c16.start_native(['end_to_end'], 'e2e', REPLAY),
+               'multi': c16.start_native(['standin_multi_parent'], 'multi', REPLAY)}
     for r in '0123':
         natives['cond' + r] = c16.start_native(['standin_conditional', '3', r], 'cond' + r, REPLAY)
     timeout = 6000 if tier == 'quick' else 60000
@@ -850,6 +851,20 @@ def main(tier):
     if d:
         chk.bounded_standin('clients.Trial.parameters through a local RAM service (the wire: numbers as doubles, bools as 1.0/strings)',
                             '3 trials on a flat space with every builder kind and multi-dimensional names, 4 on a conditional space', 'held', detail=d)
+    res, verdict, err = c16.collect_native(natives['multi'])
+    if res is None:
+        chk.error('C17.standin.multi_parent', 'native stand-in did not run: %s %s' % (verdict, err))
+    elif res['n_failures']:
+        first = next((f for f in res['failures'] if 'parameters' in f), res['failures'][0])
+        chk.obligation('C17.conditional.active_parameters_presented', 'StudyConfig._trial_to_external_values', 'native-enumeration', report.VIOLATED, 0.0,
+                       detail=first, model=json.dumps(res['failures'][:4]),
+                       replay={'cmd': '/venv/bin/python %s standin_multi_parent' % REPLAY, 'first_failure': first, 'failures': res['failures']}, reproduced=True)
+    else:
+        chk.bounded_standin('children declared under several parent values in ONE declaration (factory(children=[([v1, v2], child)]) and the same space after '
+                            'StudyConfig.to_proto/from_proto = ConditionalParameterSpec with several parent values): active under any declared value => presented, '
+                            'otherwise ValueError',
+                            '4 parents (CATEGORICAL 3 values with 4 multi-valued declarations incl. a nested one, INTEGER, DISCRETE, BOOLEAN) x every parent value x '
+                            'direct and through TrialConverter.to_proto', 'held', detail={'cases': res['cases']})
     tot, ok = {'spaces': 0, 'trials': 0}, True
     for r in '0123':
         res, verdict, err = c16.collect_native(natives['cond' + r])
